@@ -891,13 +891,19 @@ def mul_rules(prog, chk, pid):
     if ok:
         exn = Exec(prog, policy=lambda e, f, d: False)
         rn = exn.run(fn)
-        lrs = [l for l in exn.loops.values() if l.kind == "while" and "mult" in l.next]
+        # the scalar is the loop-carried variable that starts as the function's parameter (whatever it is called: a fused generator renames its locals)
+        def _scalar_var(l):
+            vs = [v for v in l.next if v in l.init and unsnap(l.init[v]).op == "param"]
+            return vs[0] if len(vs) == 1 else None
+
+        lrs = [l for l in exn.loops.values() if l.kind == "while" and _scalar_var(l) is not None]
         ok, why = len(lrs) == 1, "no loop over the scalar"
     if ok:
         lr = lrs[0]
-        m = mk("loopvar", lr.id, "mult")
+        mvar = _scalar_var(lr)
+        m = mk("loopvar", lr.id, mvar)
         apps = [e for e in rn.events if e.kind == "mutate" and e.d.get("how") == "append"]
-        nxt = unsnap(lr.next["mult"])
+        nxt = unsnap(lr.next[mvar])
         # expected: next = phi(odd ? (mult - nd) // 2 : mult // 2), nd = phi((mult % 4) >= 2 ? (mult % 4) - 4 : mult % 4)
         m4 = mk("bin", "Mod", m, C(4))
         nd = mk("phi", mk("cmp", "GtE", m4, C(2)), mk("bin", "Sub", m4, C(4)), m4)
@@ -973,6 +979,18 @@ def mul_rules(prog, chk, pid):
         it = unsnap(lr.iter)
         ok = it.op == "iterview" and it.args[0] == "reversed" and "_naf" in show(it.args[1], 4)
         why = "the digits are not walked from the most significant end (reversed(self._naf(k)))"
+        if ok:
+            # ALL digits are walked (the sequence handed to reversed() is the result of _naf itself, not a slice or a filtered copy of it) ...
+            inner = unsnap(it.args[1])
+            mc_ = meth_call(inner)
+            ok = bool((mc_ and mc_[1] == "_naf") or is_call_named(inner, "_naf"))
+            why = "the walk does not cover every digit of _naf(k) (it runs over %s)" % show(inner, 4)
+        if ok:
+            # ... starting from the point at infinity: (X, 0, Z) / (X, Y, 0) is what _double and _add treat as infinity; an empty digit string (k = 0 after the reduction
+            # modulo twice the order) must give infinity, not the point
+            y0, z0 = lr.init.get("Y3"), lr.init.get("Z3")
+            ok = any(t_ is not None and is_const(unsnap(t_)) and cval(unsnap(t_)) == 0 for t_ in (y0, z0))
+            why = "the accumulator does not start at the point at infinity (Y3 = %s, Z3 = %s): an empty digit string then yields a finite point" % (show(y0, 3) if y0 is not None else "?", show(z0, 3) if z0 is not None else "?")
     if ok:
         def named(e, nm):
             if e.kind == "mcall":
